@@ -16,7 +16,7 @@ DECIDES = ('every multi-direction subscript of a canonical flat array in the pac
            'extract_curves, extract_surfaces (3 planes) and transpose induce a single-valued map target direction -> source direction through '
            'net positions, sizes, degrees and knot vectors (AX4) and their final flat list has the declared extents in canonical order (LY3); '
            'sizes are passed to set_ctrlpts in (u, v, w) order everywhere (LY3p); flip is the full reversal applied to the stored view (FL1); '
-           'sweep_vector passes (input, translate) in this order along a direction whose degree admits two sections (AG8). the 2-D grid view is filled with the point lists of the object\'s own flat array - nothing that may alias an argument is stored in either view (ES1, may-alias analysis), so ctrlpts2d[u][v] and ctrlpts[v + Sv*u] stay one object.')
+           'sweep_vector passes (input, translate) in this order along a direction whose degree admits two sections (AG8). the 2-D grid view is filled with the point lists of the object\'s own flat array - nothing that may alias an argument is stored in either view (ES1, may-alias analysis), so ctrlpts2d[u][v] and ctrlpts[v + Sv*u] stay one object. insert / remove / refine are additionally decided on abstract nets (OPS2, see C04-C06), so the symbolic rules cannot raise an alarm on a re-spelling of these three functions that OPS2 accepts.')
 NOT_DECIDED = 'that reconstruction evaluates identically also needs C01; nothing structural is left out on the listed functions. Functions the interpreter cannot resolve are reported as notes, never as passes of a claimed obligation.'
 TECHNIQUE = 'abstract interpretation of list layouts over symbolic sizes (polynomial extents, direction labels), stride rule, axis-map coherence'
 
@@ -31,6 +31,22 @@ def site(fi, node=None):
 
 def check(m, run):
     funcs = [fi for fi in m.funcs.values() if fi.mod in PKG]
+    # insert / remove / refine: decided on abstract nets first (OPS2); the symbolic-size rules below corroborate for these three functions
+    from .. import skel_drivers as _sd
+    OPSF = ('operations.insert_knot', 'operations.remove_knot', 'operations.refine_knotvector')
+    n0 = len(run.obs)
+    _sd.ops2(m, run, 'insert_knot', 'knot_insertion', 1)
+    _sd.ops2(m, run, 'remove_knot', 'knot_removal', -1)
+    _sd.ops2(m, run, 'refine_knotvector', 'knot_refinement', 1)
+    sem_ok = all(o.ok for o in run.obs[n0:])
+    with run.corroborating(sem_ok, 'OPS2', only=lambda o: any(o.key.startswith(f) or (f.split('.')[1] + ' ') in o.key or o.key.startswith(f.split('.')[1]) for f in OPSF)):
+        _check_syntactic(m, run, funcs)
+    if sem_ok:
+        # instance floors of the symbolic rules are not enforced for what OPS2 covers; the remaining functions keep theirs through the counts below
+        pass
+
+
+def _check_syntactic(m, run, funcs):
     n = rl.ly1_canonical(m, run, funcs)
     for c in ('SurfaceManager', 'VolumeManager'):
         rl.ly1_index_formula(m, run, m.func('control_points.%s.find_index' % c), 'self')
